@@ -36,7 +36,9 @@ def configs(draw):
          "evaluator": draw(st.booleans()), "cb_train": draw(st.booleans()), "cb_val": draw(st.booleans()),
          "bn": draw(st.sampled_from([True, True, False])), "dropout": draw(st.sampled_from([True, True, False])), "act": draw(st.sampled_from(["tanh", "relu", "sigmoid"])),
          "opt": draw(st.sampled_from(["sgd", "adam"])), "seed": draw(st.integers(0, 2 ** 31 - 1)),
-         "classes": draw(st.integers(2, 4)), "extra": draw(st.integers(0, 3)), "test": draw(st.booleans())}
+         "classes": draw(st.integers(2, 4)), "extra": draw(st.integers(0, 3)), "test": draw(st.booleans()),
+         "construct_under_no_grad": draw(st.sampled_from([False, False, True])),
+         "test_under_no_grad": draw(st.booleans())}
     return c
 
 
@@ -145,8 +147,15 @@ def check_fit(c, rec):
     def on_val(m, loader):
         cb_calls["val"].append((m is model, loader is val_loader))
 
-    trainer = train_mod.Trainer(model, sg)
-    trainer.compile(loss_spy, opt, evaluator)
+    if c.get("construct_under_no_grad"):
+        # the trainer object is created (and compiled) while tracking is disabled, then used normally
+        with sg.no_grad():
+            trainer = train_mod.Trainer(model, sg)
+            trainer.compile(loss_spy, opt, evaluator)
+        rec.tag("constructed_under_no_grad")
+    else:
+        trainer = train_mod.Trainer(model, sg)
+        trainer.compile(loss_spy, opt, evaluator)
     mode_before = tracking_on()
     kw = {}
     if c["cb_train"]:
@@ -257,12 +266,19 @@ def check_fit(c, rec):
         events.clear()
         test_loader = make_loader(2)
         before = snapshot()
-        mode_before = tracking_on()
+        outer = sg.no_grad() if c.get("test_under_no_grad") else contextlib.nullcontext()
         try:
-            with contextlib.redirect_stdout(io.StringIO()):
-                y_pred, y_true = trainer.test(test_loader)
+            with outer:
+                mode_before = tracking_on()
+                with contextlib.redirect_stdout(io.StringIO()):
+                    y_pred, y_true = trainer.test(test_loader)
+                mode_after = tracking_on()
         except Exception as e:  # noqa: BLE001
             raise Violation("test_raised", f"test raised {type(e).__name__}: {e}; {ctx}")
+        if mode_after != mode_before:
+            raise Violation("grad_mode_leaked", f"test() called with gradient tracking {'on' if mode_before else 'off'} left it "
+                                                f"{'on' if mode_after else 'off'}; {ctx}")
+        mode_before = tracking_on()
         fw = [e for e in events if e["e"] == "forward"]
         if len(fw) != len(test_loader) or any(e["e"] in ("step", "zero_grad", "backward") for e in events):
             raise Violation("test_protocol", f"test(): events {[e['e'] for e in events]}; {ctx}")
